@@ -33,6 +33,9 @@ def no_overlap(fb, OUT, IN, LEN):
     return excluded(OUT, IN) and excluded(IN, OUT)
 
 
+ALSO_PORTABLE = True
+
+
 def run(ctx, chk):
     prog = ctx.prog()
     chk.configs.append("native -O0+mem2reg")
